@@ -439,6 +439,7 @@ pub mod verif {
         static EVENTS_TOTAL: Cell<u64> = const { Cell::new(0) };
         static LOOKS_TOTAL: Cell<u64> = const { Cell::new(0) };
         static N_TOKENS: Cell<u32> = const { Cell::new(0) };
+        static PROCESS_STEPS: Cell<u64> = const { Cell::new(0) };
     }
 
     pub(crate) fn start(n_tokens: usize) {
@@ -479,6 +480,17 @@ pub mod verif {
             reset();
             panic!("oq3_verif: parser stuck (look-aheads without consuming a token)");
         }
+    }
+
+    /// One step of turning the event list into the output (an event visited, or one hop
+    /// along a forward-parent chain).
+    pub(crate) fn on_process_step() {
+        PROCESS_STEPS.with(|c| c.set(c.get() + 1));
+    }
+
+    /// Return and clear the number of event-processing steps of this thread.
+    pub fn take_process_steps() -> u64 {
+        PROCESS_STEPS.with(|c| c.replace(0))
     }
 
     /// Return and clear the work counters of this thread: (events pushed, look-aheads).
